@@ -38,6 +38,15 @@ Theorem C04_pending_invisible : forall s r o ops,
 Proof. exact pending_invisible. Qed.
 Print Assumptions C04_pending_invisible.
 
+(** ... and they neither add nor remove a committed root: the set of roots that resolve, with
+    their contents, is the same before and after (and after a restart) *)
+Theorem C04_table_only_frame : forall s ops r o,
+  inv s -> forallb table_only ops = true ->
+  (committed (run s ops) r o <-> committed s r o) /\
+  (committed (restart (run s ops)) r o <-> committed s r o).
+Proof. exact table_only_frame. Qed.
+Print Assumptions C04_table_only_frame.
+
 (** full strength: whatever happens between MemSet and its acknowledged Commit, reads at the
     root return the content MemSet computed.  REFUTED (finding C04-1). *)
 Definition C04_commit_exact_full : Prop := commit_exact_full.
